@@ -54,7 +54,7 @@ def coq_case(case, obs):
         exp = f"(Ok {S.rows_coq(obs['ok'])})"
     else:
         exp = f"(Err {C.cerr(obs['err'])})"
-    return f"CRun {S.recipe_coq(case['recipe'])} {C.cnat(case['reps'])} {exp}"
+    return f"CRun {S.recipe_coq(case['recipe'], S.obs_draws(obs))} {C.cnat(case['reps'])} {exp}"
 
 
 def oracle(case, obs):
